@@ -11,7 +11,7 @@ m = {
     "setup_cmd": "./check --setup",
     "hooks": {
         "guard": "verif",
-        "enable": "go build -tags verif (module /verif/sim, replace berty.tech/go-ipfs-log => /repo)",
+        "enable": "go build -tags verif (module /verif/sim, replace berty.tech/go-ipfs-log => /repo); additionally -overlay with a build-time generated copy of keystore/keystore.go that has a scheduling point before each cache/store call (sim/cmd/yieldgen; /repo itself is not changed, hook variable nil unless a C20c run sets it)",
         "baseline_off_cmd": "cd /repo && GOFLAGS=-mod=mod GOPROXY=off GOSUMDB=off go test -json -vet=off -count=1 -timeout 25m ./...",
         "source_commits": hook_commits,
         "add_only": True,
